@@ -459,7 +459,9 @@ class Configuration:
                     if ":" in key:
                         continue
                     meta = {
-                        k.partition(":")[-1]: v for k, v in cfg_parser[cfg_section].items() if k.startswith(f"{key}:")
+                        k.partition(":")[-1]: v if v is None else v.replace("\n", " ")
+                        for k, v in cfg_parser[cfg_section].items()
+                        if k.startswith(f"{key}:")
                     }
 
                     # Create a configuration entry
